@@ -11,12 +11,13 @@ from vf.zoo import unit, vec
 
 ID = "C08"
 LEVEL = "exploration"
-BUDGET = {"quick": 3200, "thorough": 64000}
+BUDGET = {"quick": 19200, "thorough": 192000}
 RULE = (
     "Hypothesis draws any of the 10 system classes (constant metrics of all 14 types incl. low-rank down-dates and "
     "block metrics; scalar/diagonal/Cholesky/dense/SoftAbs position-dependent metrics; constrained variants), a "
     "position (on the manifold for constrained systems), a previous momentum, a refresh coefficient in {0, 1, "
-    "interior, 1e-8, 1-1e-8} and a generated normal vector z. A scripted generator returns basis vectors, so "
+    "interior, 1e-8, 1-1e-8} (given at construction, or re-assigned through the public attribute afterwards) and a "
+    "generated normal vector z. A scripted generator returns basis vectors, so "
     "sample_momentum is read off as a matrix L: linearity sample(z) = L z (1e-12), L L' = M(q) (dense reference; "
     "projected covariance M - J'(J M^-1 J')^-1 J for constrained systems). Partial refresh is read off as p' = A p + "
     "B z and must satisfy A S A' + B B' = S; c=1 => A=0, B B' = S; c=0 => p' bit-identical. No sampling statistics. "
@@ -32,7 +33,7 @@ def _case(draw):
     spec = draw(zoo.system_spec(max_dim=4, allow_down=True))
     n = spec["dim"]
     return {"sys": spec, "q": draw(vec(n, -1.5, 1.5)), "p": draw(vec(n, -2.0, 2.0)), "z": draw(vec(n, -2.0, 2.0)),
-            "c": draw(coeff)}
+            "c": draw(coeff), "c_init": draw(st.one_of(st.none(), coeff))}
 
 
 def strategy(tier):
@@ -112,7 +113,15 @@ def run_case(case) -> Result:
     # ---- partial refresh read off exactly: p' = A p + B z
     c = case["c"]
     res.classes.append("coeff:" + ("0" if c == 0 else "1" if c == 1 else "interior"))
-    trans = guard("CorrelatedMomentumTransition", lambda: CorrelatedMomentumTransition(system, c))
+    c_init = case.get("c_init")
+    if c_init is None:
+        trans = guard("CorrelatedMomentumTransition", lambda: CorrelatedMomentumTransition(system, c))
+    else:
+        # the coefficient is a public attribute: constructed with one value, re-assigned before use
+        trans = guard("CorrelatedMomentumTransition", lambda: CorrelatedMomentumTransition(system, c_init))
+        if trans is not None:
+            trans.mom_resample_coeff = c
+            res.classes.append("coefficient-reassigned")
     if trans is None:
         return res
 
